@@ -13,16 +13,29 @@ use clvmr::chia_dialect::ClvmFlags;
 use serde_json::json;
 
 fn run_at(f: &Forest, prog: Id, env: Id, flags: ClvmFlags, budget: u64, plan: u64) -> (Res, bool) {
+    let (r, e, _) = run_at_guards(f, prog, env, flags, budget, plan);
+    (r, e)
+}
+
+/// also returns (cost at entry, declared cost) of every softfork guard that was entered
+fn run_at_guards(f: &Forest, prog: Id, env: Id, flags: ClvmFlags, budget: u64, plan: u64) -> (Res, bool, Vec<(u64, u64)>) {
     let mut a = crate::outcome::allocator_for(flags);
     let Some((p, e)) = materialize2(f, &mut a, prog, env, plan, 0) else {
-        return (Res::Panic("materialize failed".into()), false);
+        return (Res::Panic("materialize failed".into()), false, Vec::new());
     };
     let d = clvmr::chia_dialect::ChiaDialect::new(flags);
     let (o, ev) = with_events(|| crate::outcome::run_dialect_raw(&mut a, &d, p, e, budget));
     let exempt = ev
         .iter()
         .any(|e| matches!(e, clvmr::verif_hooks::Event::GuardEnter { exempt: true, .. }));
-    (o.res, exempt)
+    let guards = ev
+        .iter()
+        .filter_map(|e| match e {
+            clvmr::verif_hooks::Event::GuardEnter { cost, declared, .. } => Some((*cost, *declared)),
+            _ => None,
+        })
+        .collect();
+    (o.res, exempt, guards)
 }
 
 fn fail(ctx: &mut Ctx, sig: &str, f: &Forest, prog: Id, env: Id, flags: ClvmFlags, d: serde_json::Value) {
@@ -47,7 +60,7 @@ pub fn check_with(ctx: &mut Ctx, r: &mut Rng, f: &Forest, prog: Id, env: Id, fla
         ctx.count("skipped_more_expensive_than_probe_budget");
         return;
     }
-    let (base, exempt0) = run_at(f, prog, env, flags, 0, plan);
+    let (base, exempt0, guards) = run_at_guards(f, prog, env, flags, 0, plan);
     ctx.eval();
     if base != probe {
         fail(ctx, "budget-0-not-unlimited", f, prog, env, flags,
@@ -64,12 +77,29 @@ pub fn check_with(ctx: &mut Ctx, r: &mut Rng, f: &Forest, prog: Id, env: Id, fla
         Res::Panic(m) => fail(ctx, "panic", f, prog, env, flags, json!({"msg": m})),
         Res::Err { .. } => {
             // must fail at every budget
-            for b in [1u64, 1000, r.range(1, 1 << 40), u64::MAX, u64::MAX - 1] {
+            let mut bs = vec![1u64, 1000, r.range(1, 1 << 40), u64::MAX, u64::MAX - 1];
+            // every budget inside the window of every softfork guard that was entered (a guard temporarily replaces
+            // the budget by its declared cost: a finite budget must never rescue a run that fails without one)
+            let mut extra = 0u64;
+            for (at, declared) in &guards {
+                if *declared <= 4000 && extra < 9000 {
+                    bs.extend(at.saturating_sub(2)..=at + declared + 2);
+                    extra += declared + 5;
+                }
+            }
+            if extra > 0 {
+                ctx.count("failing_runs_swept_over_guard_windows");
+            } else if r.chance(1, 16) {
+                bs.extend(1..=600u64);
+                ctx.count("failing_runs_swept_over_small_budgets");
+            }
+            for b in bs {
                 let (o, _) = run_at(f, prog, env, flags, b, plan);
                 budgets_run += 1;
                 if o.is_ok() {
                     fail(ctx, "fails-unlimited-succeeds-limited", f, prog, env, flags,
                          json!({"budget": b, "at_0": base.to_json(), "at_budget": o.to_json()}));
+                    break;
                 }
             }
         }
@@ -218,6 +248,12 @@ fn directed(f: &mut Forest) -> Vec<(Id, Id, ClvmFlags)> {
         "(softfork (q . 3000) (q . 1) (q . (keccak256 (q . 1) (q . 2))) (q . ()))",
         "(sha256tree (q . ((1 . 2) 3 4 $big)))",
         "(keccak256 (q . $big) (q . $big))",
+        // over- and under-declared guards at the tail of the program
+        "(softfork (q . 161) (q . 0) (q . (q . 42)) (q . ()))",
+        "(softfork (q . 159) (q . 0) (q . (q . 42)) (q . ()))",
+        "(softfork (q . 400) (q . 1) (q . (q . 42)) (q . ()))",
+        "(c (q . 1) (softfork (q . 161) (q . 0) (q . (q . 42)) (q . ())))",
+        "(softfork (q . 700) (q . 0) (q . (softfork (q . 161) (q . 0) (q . (q . 42)) (q . ()))) (q . ()))",
         // unknown extensions charge their declared cost: the only way to costs near 2^63 and 2^64
         "(softfork (q . 0x4000000000000000) (q . 9) (q . (x)) (q . ()))",
         "(softfork (q . 0x7fffffffffffff00) (q . 9) (q . (x)) (q . ()))",
